@@ -1015,7 +1015,12 @@ def main() -> int:
             else:
                 w.raw(f"def {name} : List Hv.XPath.Step := [.unsupported]")
                 problems.append(f"configs: no path argument for {name}")
-        init_paths = path_arguments(m_ovf, "OVF.__init__", {"self": m_ovf.OVF})
+        # the constructor's lookups, wherever they live: `__init__` and the helper methods of the class (everything but `disks`),
+        # in source order
+        init_paths = []
+        for mname, mobj in vars(m_ovf.OVF).items():
+            if inspect.isfunction(mobj) and mname != "disks":
+                init_paths += path_arguments(m_ovf, f"OVF.{mname}", {"self": m_ovf.OVF})
         disks_paths = path_arguments(m_ovf, "OVF.disks", {"self": m_ovf.OVF})
         w.strlist("OVF_PATH_ARGS", [f"{a}:{v}" for a, v, _ in init_paths + disks_paths])
         steps("OVF_FILE_STEPS", init_paths, 0)
